@@ -16,7 +16,7 @@ CHECKS = {
              "constraints are re-run, the order of bindings inside one disequality) and yields. Over a finite universe of ground "
              "terms the set of query assignments covered by the engine's answers (term + every reported disequality, hidden "
              "variables existential) must equal the set the program accepts, computed by brute force (or by the reference "
-             "interpreter when hidden variables need witnesses). Exhaustive over atoms^nq, sampled over the rest.",
+             "interpreter when hidden variables need witnesses). Exhaustive over atoms^nq, sampled over the rest. Every 64th case is a program written with the repository's own macros (sim/src/surface.rs) with hand-listed expected answers, so that changes above the runtime API (in macros/) are seen too.",
         design="7 (C02), 4 (R2), 1 (N1)",
         technique="deterministic simulation: seeded constraint-store iteration order + posting-order permutations, ground-instance set oracle",
     ),
@@ -54,7 +54,7 @@ CHECKS = {
              "order (also when the block is one branch of an interleaving conde), and with the exact schedule the "
              "ResultIterator order must match too on list-free programs. Exploration: the order must survive every "
              "suspension pattern of the leaves, which can only be sampled. One genuine defect of the pinned tree is a "
-             "listed known finding (iterator order of dfs answers with lists).",
+             "listed known finding (iterator order of dfs answers with lists). Every 64th case is a program written with the repository's own macros (sim/src/surface.rs) with hand-listed expected answers, so that changes above the runtime API (in macros/) are seen too.",
         design="7 (C05), 4 (R1)",
         technique="deterministic simulation: scripted DFS leaves + seeded yields against a reference DFS interpreter, position-by-position order oracle",
     ),
@@ -62,7 +62,7 @@ CHECKS = {
         text="Bounded liveness under simulated leaf timing: every productive alternative of a disjunction tree is first run "
              "alone to measure the quanta T for its first <=3 answers; in the full disjunction (next to infinite producers and "
              "silent divergers) the same answers must appear within K*2^m*(T+8)+2048 scheduler quanta of the step clock hook. "
-             "A starved branch never appears whatever the bound; the measured worst case uses <4% of the bound on the unchanged tree.",
+             "A starved branch never appears whatever the bound; the measured worst case uses <4% of the bound on the unchanged tree. A wide family (flat conde of 9-11 clauses, all but the last infinite) reaches branches that sit deep in the merge tree, and loops stay inside an alternative's own program, so answers of later rounds are required too.",
         design="7 (C07), 1 (N2, N5)",
         technique="deterministic simulation: step-clock budget, scripted producers/divergers, progress-within-N-quanta oracle",
     ),
@@ -70,7 +70,7 @@ CHECKS = {
         text="Seeded exploration of conda/condu/onceo programs whose head goals answer late, in bursts, via iterators, from dfs "
              "blocks or from never-ending producers: the engine's answer multiset must be the reference soft-cut multiset for "
              "some choice of exactly one head answer per evaluated condu/onceo (the first one wherever the head's order is "
-             "deterministic). Exploration over head timing is what decides whether peek/trunc mature and cancel correctly.",
+             "deterministic). Exploration over head timing is what decides whether peek/trunc mature and cancel correctly. Every 64th case is a program written with the repository's own macros (sim/src/surface.rs) with hand-listed expected answers, so that changes above the runtime API (in macros/) are seen too.",
         design="7 (C08), 4 (R1)",
         technique="deterministic simulation: scripted head latency + cancellation, reference soft-cut interpreter with choice-function oracle",
     ),
@@ -81,7 +81,7 @@ CHECKS = {
              "iterators, drops, polling after the end). Canonical answer sequences must be identical in all of them; a None must "
              "stay None; a never-ending but productive program must deliver its first 24 answers within the step budget. One "
              "genuine defect is a listed known finding with its class excluded from generation: the order of CLP(FD) answers "
-             "depends on propagation order when the program has two or more FD constraints.",
+             "depends on propagation order when the program has two or more FD constraints. A consumer-versus-search family steps the engine directly (Engine::step) to see when answers mature and requires the iterator to deliver them within 4x that, next to a step that never returns.",
         design="7 (C09), 1 (N1, N3, N5)",
         technique="deterministic simulation: differential runs across seeded hash-order schedules and consumer histories, step budget for laziness",
     ),
@@ -91,7 +91,7 @@ CHECKS = {
              "long-lived Query (sequential re-runs, up to three interleaved iterators, drops half way): every exhausted iterator "
              "must return the reference interpreter's multiset (projection evaluated on the reaching state's own value) and "
              "nothing may panic. The property only fails when a sibling state or an earlier run touches the projection between "
-             "two steps of a branch, which is a schedule/history dimension.",
+             "two steps of a branch, which is a schedule/history dimension. Every 64th case is a program written with the repository's own macros (sim/src/surface.rs) with hand-listed expected answers, so that changes above the runtime API (in macros/) are seen too.",
         design="7 (C11), 1 (N2, N3)",
         technique="deterministic simulation: scripted suspensions + consumer histories (restart, interleave, cancel) against a reference interpreter",
     ),
@@ -149,7 +149,7 @@ CHECKS = {
              "trees the interleaving answer multiset must equal an independent reference interpreter and the same program "
              "under dfs{}; on infinite programs every answer of a bounded prefix must be an answer per the reference. "
              "Exploration is the right level: the property quantifies over all programs and all suspension timings of "
-             "their leaves, which can only be sampled.",
+             "their leaves, which can only be sampled. Every 64th case is a program written with the repository's own macros (sim/src/surface.rs) with hand-listed expected answers, so that changes above the runtime API (in macros/) are seen too.",
         design="7 (C06), 4 (R1)",
         technique="deterministic simulation: scripted leaf goals + seeded yields/reorders against a reference interpreter, multiset oracle",
     ),
